@@ -230,10 +230,7 @@ func runSchedx(ctx *core.Ctx, tier string) {
 	w := newAPIWorld()
 	s := installSched()
 	zs.OwnMapOrder = false
-	for i := range w.calls {
-		zs.Reset()
-		w.solo = append(w.solo, w.outcome(i))
-	}
+	w.solo = w.soloOutcomes()
 	shard, nshards := shardInfo()
 	jobs := planJobs(w, s, tier)
 	mine := assignJobs(jobs, nshards)[shard]
@@ -372,10 +369,7 @@ func schedReplayCase(ctx *core.Ctx, raw json.RawMessage) {
 	}
 	w := newAPIWorld()
 	s := installSched()
-	for i := range w.calls {
-		zs.Reset()
-		w.solo = append(w.solo, w.outcome(i))
-	}
+	w.solo = w.soloOutcomes()
 	sc := scenario{name: k.Scenario, warm: k.Warm}
 	zs.StmtPoints = k.StmtPoints
 	for _, n := range k.Calls {
@@ -511,10 +505,7 @@ func raceBodies(reps int) {
 	zs.SetController(nil)
 	zs.FreeYield = true
 	w := newAPIWorld()
-	for i := range w.calls {
-		zs.Reset()
-		w.solo = append(w.solo, w.outcome(i))
-	}
+	w.solo = w.soloOutcomes()
 	scs := buildScenarios(w, "quick")
 	// extra free-running scenarios: 8 goroutines on the shared Patch; legacy calls
 	all := []int{}
